@@ -104,7 +104,8 @@ func runN3(c *core.Ctx) {
 			}
 		}
 	}
-	if n == 0 {
+	if n == 0 && p.GOARCH == "amd64" {
+		// (the portable build has no generated-code limit cells; after the repair of F-42 it has no use at all)
 		c.Undecided("f32-limit", token.NoPos, "no use of math.MaxFloat32 found")
 	}
 }
